@@ -344,20 +344,34 @@ where
 
     /// Returns true, if `self` and `other` have equivalent amounts, otherwise
     /// `false`.
+    ///
+    /// Values in different units are compared in the unit with the smaller
+    /// scale, so that the result does not depend on the order of operands.
     #[inline(always)]
     fn eq(&self, other: &Self) -> bool {
-        self.amount() == other.equiv_amount(self.unit())
+        if self.unit().scale() <= other.unit().scale() {
+            self.amount() == other.equiv_amount(self.unit())
+        } else {
+            self.equiv_amount(other.unit()) == other.amount()
+        }
     }
 
-    /// Returns the partial order of `self`s amount and `other`s eqivalent
-    /// amount in `self`s unit.
+    /// Returns the partial order of `self`s and `other`s amounts, if both
+    /// have the same unit, otherwise the partial order of their eqivalent
+    /// amounts in the unit with the smaller scale (so that `a < b` exactly
+    /// when `b > a`).
     fn partial_cmp(&self, other: &Self) -> Option<Ordering> {
         if self.unit() == other.unit() {
             PartialOrd::partial_cmp(&self.amount(), &other.amount())
-        } else {
+        } else if self.unit().scale() <= other.unit().scale() {
             PartialOrd::partial_cmp(
                 &self.amount(),
                 &other.equiv_amount(self.unit()),
+            )
+        } else {
+            PartialOrd::partial_cmp(
+                &self.equiv_amount(other.unit()),
+                &other.amount(),
             )
         }
     }
